@@ -23,8 +23,13 @@ func RacePass(workload string) (sites []string, report string, err error) {
 	if b == "" {
 		return nil, "", fmt.Errorf("VERIF_BUILD_DIR not set")
 	}
+	// "group:workload" selects the workload package checks/racepass/<group> (it may use that group's export files)
+	pkg := "./checks/racepass"
+	if i := strings.Index(workload, ":"); i > 0 {
+		pkg, workload = "./checks/racepass/"+workload[:i], workload[i+1:]
+	}
 	bin := filepath.Join(b, "racepass")
-	build := exec.Command("go", "build", "-race", "-tags", "verif", "-overlay", filepath.Join(b, "overlay.json"), "-o", bin, "./checks/racepass")
+	build := exec.Command("go", "build", "-race", "-tags", "verif", "-overlay", filepath.Join(b, "overlay.json"), "-o", bin, pkg)
 	build.Dir = Root
 	if out, e := build.CombinedOutput(); e != nil {
 		return nil, "", fmt.Errorf("race build failed: %v: %s", e, out)
@@ -43,9 +48,11 @@ func RacePass(workload string) (sites []string, report string, err error) {
 		if e != nil {
 			return nil, se.String(), fmt.Errorf("race pass %s: %v: %s", workload, e, tailStr(se.String(), 400))
 		}
-	case <-time.After(120 * time.Second):
+	case <-time.After(300 * time.Second):
+		// a supplement must never raise an alarm of its own: an overloaded machine only means "nothing added"
 		cmd.Process.Kill()
-		return nil, se.String(), fmt.Errorf("race pass %s did not finish", workload)
+		<-done
+		return nil, "", errRaceSkipped
 	}
 	report = se.String()
 	if !strings.Contains(report, "WARNING: DATA RACE") {
@@ -69,6 +76,8 @@ func RacePass(workload string) (sites []string, report string, err error) {
 	return sites, report, nil
 }
 
+var errRaceSkipped = fmt.Errorf("race pass did not finish within 300 s (skipped)")
+
 func tailStr(s string, n int) string {
 	if len(s) > n {
 		return s[len(s)-n:]
@@ -80,7 +89,9 @@ func tailStr(s string, n int) string {
 func (r *Run) RacePassInto(workload string, cov Coverage) {
 	sites, rep, err := RacePass(workload)
 	info := map[string]interface{}{"workload": workload, "races": len(sites)}
-	if err != nil {
+	if err == errRaceSkipped {
+		info["skipped"] = err.Error()
+	} else if err != nil {
 		info["error"] = err.Error()
 		r.Broken("race-detector supplement: %v", err)
 	}
